@@ -173,6 +173,14 @@ def run(ctx):
         from .c04 import row_rule
         row_rule(d8_, fcv, "compute_coverages", None, "C08.R")
         rule_flush_pairing(d8_, "C08.F", fcv, "compute_coverages")
+    # "the thread option never changes results": `-t 0` (auto) is translated to a positive worker count in BOTH minimiser
+    # presets before their spawn loops; "-H only adds the column line" also when the output path already holds a longer
+    # result of an earlier run: every output is opened truncating
+    from . import c10, c17
+    fs2_, fm2_ = ctx.view(c10.S2M), ctx.view(c10.M2S)
+    if fs2_ is not None and fm2_ is not None:
+        c10.agree_rule(dep(ctx, "C15", "C10"), fs2_, fm2_)
+    c17.open_rules(dep(ctx, "C15", "C17"))
     fb, fm = ctx.view(c05.BATCH), ctx.view(c05.MMAP)
     if fb is not None and fm is not None:
         c05.header_rule(dep(ctx, "C15", "C05"), fb, fm)
